@@ -431,6 +431,16 @@ impl<'tcx> Dumper<'tcx> {
         let bytes = a.inspect_with_uninit_and_ptr_outside_interpreter(0..a.len());
         let te = TypingEnv::fully_monomorphized();
         if let ty::Array(elem, _) = ty.kind() {
+            // arrays of arrays / tuples (`[[u16; 8]; 13]`, `[(Suit, Suit); 6]`): nested values, element by element
+            if matches!(elem.kind(), ty::Array(..) | ty::Tuple(..)) {
+                if let Some(J::Arr(vals)) = self.value_at(bytes, offset, ty, 0) {
+                    return J::obj(vec![
+                        ("array", J::Arr(vals)),
+                        ("elem", J::s(format!("{}", elem))),
+                        ("ty", J::s(format!("{}", ty))),
+                    ]);
+                }
+            }
             if let Ok(layout) = tcx.layout_of(te.as_query_input(*elem)) {
                 let esz = layout.size.bytes() as usize;
                 if esz > 0 && esz <= 16 {
@@ -474,6 +484,68 @@ impl<'tcx> Dumper<'tcx> {
             ])
         } else {
             J::obj(vec![("opaque", J::s(format!("indirect {} bytes: {}", bytes.len(), ty)))])
+        }
+    }
+
+    /// structured value of type `ty` at `off` in constant memory: integers, fieldless enums (variant name), arrays (JSON
+    /// arrays) and tuples (JSON arrays of the fields in declaration order); None for anything else
+    fn value_at(&self, bytes: &[u8], off: usize, ty: Ty<'tcx>, depth: usize) -> Option<J> {
+        let tcx = self.tcx;
+        let te = TypingEnv::fully_monomorphized();
+        if depth > 4 {
+            return None;
+        }
+        let layout = tcx.layout_of(te.as_query_input(ty)).ok()?;
+        let sz = layout.size.bytes() as usize;
+        if off + sz > bytes.len() {
+            return None;
+        }
+        let read = |o: usize, n: usize| -> u128 {
+            let mut v: u128 = 0;
+            for k in 0..n.min(16) {
+                v |= (bytes[o + k] as u128) << (8 * k);
+            }
+            v
+        };
+        match ty.kind() {
+            ty::Uint(_) | ty::Bool | ty::Char => Some(J::Int(read(off, sz) as i128)),
+            ty::Int(_) => {
+                let v = read(off, sz);
+                let shift = 128 - sz * 8;
+                Some(J::Int(((v << shift) as i128) >> shift))
+            }
+            ty::Adt(adt, _) if adt.is_enum() && adt.variants().iter().all(|v| v.fields.is_empty()) => {
+                let v = read(off, sz);
+                let mut name = format!("?{}", v);
+                for (vi, d) in adt.discriminants(tcx) {
+                    if d.val == v {
+                        name = adt.variant(vi).name.to_string();
+                    }
+                }
+                Some(J::s(name))
+            }
+            ty::Array(elem, _) => {
+                let el = tcx.layout_of(te.as_query_input(*elem)).ok()?;
+                let esz = el.size.bytes() as usize;
+                if esz == 0 {
+                    return None;
+                }
+                let n = sz / esz;
+                let mut vals = Vec::with_capacity(n);
+                for i in 0..n {
+                    vals.push(self.value_at(bytes, off + i * esz, *elem, depth + 1)?);
+                }
+                Some(J::Arr(vals))
+            }
+            ty::Tuple(fields) => {
+                let mut vals = Vec::new();
+                for (i, fty) in fields.iter().enumerate() {
+                    let fo = layout.fields.offset(i).bytes() as usize;
+                    vals.push(self.value_at(bytes, off + fo, fty, depth + 1)?);
+                }
+                Some(J::Arr(vals))
+            }
+            _ => None,
         }
     }
 
